@@ -273,6 +273,114 @@ func bypassReturns(fn *ssa.Function, accept []edge, verdicts []ssa.Value) []*ssa
 	return out
 }
 
+// verification sites -----------------------------------------------------------
+
+// A verifySite is one signature verification as seen from a function: a direct call of
+// PubKey.Verify, or a call of a module helper whose every success return passes an accepted
+// Verify of three of its own parameters (the helper is then summarised as "verifies (key, data,
+// sig) = (arg i, arg j, arg k)"). Verdicts are the values that must all accept (bool: true,
+// error: nil) for the verification to have succeeded.
+type verifySite struct {
+	Call           ssa.CallInstruction
+	Key, Data, Sig ssa.Value
+	Verdicts       []ssa.Value
+	Via            *ssa.Function // the helper, nil for a direct Verify
+}
+
+const keyVerifyCall = "(github.com/libp2p/go-libp2p/core/crypto.PubKey).Verify"
+
+func verifySitesIn(fn *ssa.Function, depth int) []verifySite {
+	var out []verifySite
+	if fn == nil || fn.Blocks == nil {
+		return nil
+	}
+	for _, b := range fn.Blocks {
+		for _, in := range b.Instrs {
+			call, ok := in.(*ssa.Call)
+			if !ok {
+				continue
+			}
+			cc := call.Common()
+			if calleeKey(cc) == keyVerifyCall && len(cc.Args) >= 2 {
+				s := verifySite{Call: call, Key: cc.Value, Data: cc.Args[0], Sig: cc.Args[1]}
+				if v := boolVerdict(call); v != nil {
+					s.Verdicts = append(s.Verdicts, v)
+				}
+				if v := errVerdict(call); v != nil {
+					s.Verdicts = append(s.Verdicts, v)
+				}
+				out = append(out, s)
+				continue
+			}
+			if depth <= 0 {
+				continue
+			}
+			h := staticCallee(cc)
+			if h == nil || h == fn || h.Blocks == nil || !inModule(h) {
+				continue
+			}
+			paramIdx := func(v ssa.Value) int {
+				v = stripConvValue(v)
+				for i, p := range h.Params {
+					if ssa.Value(p) == v {
+						return i
+					}
+				}
+				return -1
+			}
+			for _, hs := range verifySitesIn(h, depth-1) {
+				ik, id, is := paramIdx(hs.Key), paramIdx(hs.Data), paramIdx(hs.Sig)
+				if ik < 0 || id < 0 || is < 0 || ik >= len(cc.Args) || id >= len(cc.Args) || is >= len(cc.Args) {
+					continue
+				}
+				// inside the helper every verdict rejects and acceptance dominates the success returns
+				okH := len(hs.Verdicts) > 0
+				var accept []edge
+				for _, v := range hs.Verdicts {
+					if r := rejectOnFailure(h, v); !r.OK {
+						okH = false
+					}
+				}
+				if okH {
+					accept = edgesOfVerdict(hs.Verdicts[0]).Accept
+					if len(bypassReturns(h, accept, hs.Verdicts)) > 0 {
+						okH = false
+					}
+				}
+				if !okH {
+					continue
+				}
+				s := verifySite{Call: call, Key: cc.Args[ik], Data: cc.Args[id], Sig: cc.Args[is], Via: h}
+				if v := errVerdict(call); v != nil {
+					s.Verdicts = append(s.Verdicts, v)
+				} else if v := boolVerdict(call); v != nil {
+					s.Verdicts = append(s.Verdicts, v)
+				}
+				out = append(out, s)
+			}
+		}
+	}
+	return out
+}
+
+// stripConvValue looks through value-preserving conversions (interface/type changes).
+func stripConvValue(v ssa.Value) ssa.Value {
+	for {
+		switch x := v.(type) {
+		case *ssa.ChangeType:
+			v = x.X
+		case *ssa.ChangeInterface:
+			v = x.X
+		case *ssa.MakeInterface:
+			v = x.X
+		case *ssa.Convert:
+			v = x.X
+		default:
+			return v
+		}
+	}
+}
+
 // verifier summaries ---------------------------------------------------------
 
 type verifierInfo struct {
